@@ -767,9 +767,13 @@ class CitationToken(Token):
                 self.variation_editions = cast(
                     tuple, self.variation_editions
                 ) + cast(tuple, other.variation_editions)
-                # Remove duplicate editions after merge
-                self.exact_editions = tuple(set(self.exact_editions))
-                self.variation_editions = tuple(set(self.variation_editions))
+                # Remove duplicate editions after merge, keeping the order in
+                # which they were first seen: a set would order them by hash,
+                # which changes from process to process (PYTHONHASHSEED)
+                self.exact_editions = tuple(dict.fromkeys(self.exact_editions))
+                self.variation_editions = tuple(
+                    dict.fromkeys(self.variation_editions)
+                )
                 return self
         return None
 
